@@ -448,9 +448,38 @@ def isDebugTest : Expr → Bool
   | .compare (.name "__debug__" _) [.eq] [.constant .true_] => true
   | _ => false
 
-/-- the value of an `if` test: the `__debug__` tests are True, and False under `-O` -/
+def isDbgName : Expr → Bool
+  | .name x _ => x == "__debug__"
+  | _ => false
+
+/-- `__debug__ <op> e` -/
+def debugCmp : Expr → Option (CmpOpK × Expr)
+  | .compare (.name x _) [op] [e] => if x == "__debug__" then some (op, e) else none
+  | _ => none
+
+/-- what `__debug__ <op> b` asks, for a Boolean `b`: `some true` = "are we running without -O", `some false` = "with -O" -/
+def debugSense : CmpOpK → Bool → Option Bool
+  | .is_, b => some b
+  | .eq, b => some b
+  | .isNot, b => some (!b)
+  | .notEq, b => some (!b)
+  | _, _ => none
+
+/-- the value of an `if` test: `__debug__` itself and its comparisons with a Boolean (a literal, or a name that holds one)
+    are True or False according to the `-O` flag; anything else is an ordinary expression -/
 def condE (opt : Bool) (s : St) (c : Expr) : Option (Except String Val) :=
-  if isDebugTest c then some (.ok (.bool (!opt))) else evalE s c
+  if isDbgName c then some (.ok (.bool (!opt)))
+  else match debugCmp c with
+    | some (op, e) =>
+      (match evalE s e with
+       | some (.ok (.bool b)) =>
+         (match debugSense op b with
+          | some positive => some (.ok (.bool (if positive then !opt else opt)))
+          | none => none)
+       | some (.ok _) => none
+       | some (.error x) => some (.error x)
+       | none => none)
+    | none => evalE s c
 
 def isAssertStmt : Stmt → Bool
   | .assert_ .. => true
